@@ -348,8 +348,9 @@ def _set_parameter_call(st):
     return None
 
 
-def _collect_targets(stmts, methods, seen=None):
+def _collect_targets(stmts, methods, seen=None, visiting=None):
     seen = seen if seen is not None else []
+    visiting = visiting if visiting is not None else []
     for st in stmts:
         for n in ast.walk(st):
             if isinstance(n, ast.Call) and _is_self_attr(n.func, "set_parameter"):
@@ -358,8 +359,10 @@ def _collect_targets(stmts, methods, seen=None):
                     _fail("set_parameter with a computed key", n)
                 if k not in seen:
                     seen.append(k)
-            elif isinstance(n, ast.Call) and _is_self_attr(n.func) and n.func.attr.startswith("_parse_conf_"):
-                _collect_targets(methods[n.func.attr].body, methods, seen)
+            elif isinstance(n, ast.Call) and _is_self_attr(n.func) and n.func.attr in methods and n.func.attr not in ("set_parameter", "setting_error") and n.func.attr not in visiting:
+                visiting.append(n.func.attr)
+                _collect_targets(methods[n.func.attr].body, methods, seen, visiting)
+                visiting.pop()
     return seen
 
 
@@ -773,12 +776,422 @@ def _docs(repo):
 
 
 # --------------------------------------------------------------------------
+# normalisation: private names, locals, helper methods, early returns, module constants -> the canonical spelling
+# --------------------------------------------------------------------------
+# The translation below recognises statement shapes by their text.  To keep it independent of behaviour-preserving
+# refactorings, the module is first rewritten to a canonical spelling; everything is found through PUBLIC names:
+#   * private attributes: `self.<x>` assigned from the parameter `args` in ConfParser.__init__ (-> _args), returned by
+#     the properties `confs` / `settings` (-> _confs / _settings), written by `set_parameter` (-> _parameters),
+#     read by `Settings.__getattr__` (-> _v);
+#   * the subclass methods with the roles read-options / parse / set are found by what they do (they read
+#     `vars(self._args)`, loop over the conf keys comparing the loop variable with constants, call the setters) and
+#     by the call of the public base-class method (`read_options`, `parse_conf`, `set_settings`);
+#   * locals: the alias of `vars(self._args)` -> arg_list, of `self._confs` -> confs, of `self._parameters` -> params,
+#     the loop variable over the conf keys -> conf_key;
+#   * a private helper method called as a statement with plain names as arguments is inlined;
+#   * `if c: return` followed by statements -> `if not c: statements`; `not (x is None)` -> `x is not None` …;
+#   * module-level private constants (`_X = "…"`, `_T = {"k": …}` looked up with a constant key) are substituted.
+
+CANON_ATTR = ("_args", "_confs", "_settings", "_parameters", "_v")
+
+
+def _self_attr_name(n):
+    return n.attr if isinstance(n, ast.Attribute) and isinstance(n.value, ast.Name) and n.value.id == "self" else None
+
+
+class _RenameSelfAttr(ast.NodeTransformer):
+    def __init__(self, mapping):
+        self.mapping = mapping
+
+    def visit_Attribute(self, node):
+        self.generic_visit(node)
+        if isinstance(node.value, ast.Name) and node.value.id == "self" and node.attr in self.mapping:
+            node.attr = self.mapping[node.attr]
+        return node
+
+
+class _RenameNames(ast.NodeTransformer):
+    def __init__(self, mapping):
+        self.mapping = mapping
+
+    def visit_Name(self, node):
+        if node.id in self.mapping:
+            v = self.mapping[node.id]
+            if isinstance(v, ast.AST):
+                import copy
+
+                return copy.deepcopy(v)
+            node.id = v
+        return node
+
+    def visit_arg(self, node):
+        if node.arg in self.mapping and isinstance(self.mapping[node.arg], str):
+            node.arg = self.mapping[node.arg]
+        return node
+
+
+class _SimplifyNot(ast.NodeTransformer):
+    def visit_UnaryOp(self, node):
+        self.generic_visit(node)
+        if isinstance(node.op, ast.Not):
+            o = node.operand
+            if isinstance(o, ast.UnaryOp) and isinstance(o.op, ast.Not):
+                return o.operand
+            if isinstance(o, ast.Compare) and len(o.ops) == 1:
+                flip = {ast.Is: ast.IsNot, ast.IsNot: ast.Is, ast.In: ast.NotIn, ast.NotIn: ast.In, ast.Eq: ast.NotEq, ast.NotEq: ast.Eq}
+                for a, b in flip.items():
+                    if isinstance(o.ops[0], a):
+                        return ast.Compare(left=o.left, ops=[b()], comparators=o.comparators)
+        return node
+
+
+def _early_returns(body):
+    """`if c: return` + rest  ->  `if not c: rest` (recursively)"""
+    out = []
+    for i, st in enumerate(body):
+        if isinstance(st, ast.If) and not st.orelse and len(st.body) == 1 and isinstance(st.body[0], ast.Return) and st.body[0].value is None and i + 1 < len(body):
+            rest = _early_returns(body[i + 1:])
+            test = _SimplifyNot().visit(ast.UnaryOp(op=ast.Not(), operand=st.test))
+            out.append(ast.fix_missing_locations(ast.copy_location(ast.If(test=test, body=rest, orelse=[]), st)))
+            return out
+        for fld in ("body", "orelse"):
+            if isinstance(st, (ast.If, ast.For)) and getattr(st, fld, None):
+                setattr(st, fld, _early_returns(getattr(st, fld)))
+        out.append(st)
+    return out
+
+
+def _module_constants(tree):
+    consts = {}
+    for st in tree.body:
+        if isinstance(st, ast.Assign) and len(st.targets) == 1 and isinstance(st.targets[0], ast.Name):
+            v = st.value
+            if isinstance(v, ast.Constant) and isinstance(v.value, (str, bool, int)) or (
+                    isinstance(v, (ast.Dict, ast.Tuple)) and all(isinstance(x, ast.Constant) for x in (list(v.keys) + list(v.values) if isinstance(v, ast.Dict) else v.elts))):
+                consts[st.targets[0].id] = v
+    return consts
+
+
+class _SubstConstants(ast.NodeTransformer):
+    def __init__(self, consts):
+        self.consts = consts
+
+    def visit_Subscript(self, node):
+        self.generic_visit(node)
+        if isinstance(node.value, ast.Name) and isinstance(node.ctx, ast.Load):
+            t = self.consts.get(node.value.id)
+            if isinstance(t, ast.Dict) and isinstance(node.slice, ast.Constant):
+                for k, v in zip(t.keys, t.values):
+                    if k.value == node.slice.value:
+                        return ast.copy_location(ast.Constant(value=v.value), node)
+            if isinstance(t, ast.Tuple) and isinstance(node.slice, ast.Constant) and isinstance(node.slice.value, int) and node.slice.value < len(t.elts):
+                return ast.copy_location(ast.Constant(value=t.elts[node.slice.value].value), node)
+        return node
+
+    def visit_Name(self, node):
+        if isinstance(node.ctx, ast.Load) and isinstance(self.consts.get(node.id), ast.Constant) and isinstance(self.consts[node.id].value, str):
+            return ast.copy_location(ast.Constant(value=self.consts[node.id].value), node)
+        return node
+
+
+def _methods(cls):
+    return {m.name: m for m in cls.body if isinstance(m, ast.FunctionDef)}
+
+
+def _calls_base(fn, public):
+    """does fn call the public base-class method `public` (ConfParser.x(self) / super().x() / self.x())?"""
+    for n in ast.walk(fn):
+        if isinstance(n, ast.Call) and isinstance(n.func, ast.Attribute) and n.func.attr == public:
+            return True
+    return False
+
+
+def _is_keys_loop(st, confs_names):
+    """`for k in <confs>.keys()` / `for k in <confs>` whose body compares k with constants"""
+    if not isinstance(st, ast.For) or not isinstance(st.target, ast.Name):
+        return False
+    it = st.iter
+    if isinstance(it, ast.Call) and isinstance(it.func, ast.Attribute) and it.func.attr == "keys" and not it.args:
+        it = it.func.value
+    ok = (isinstance(it, ast.Name) and it.id in confs_names) or _self_attr_name(it) == "_confs"
+    if not ok:
+        return False
+    k = st.target.id
+    return any(isinstance(b, ast.If) and isinstance(b.test, ast.Compare) and isinstance(b.test.left, ast.Name) and b.test.left.id == k for b in st.body)
+
+
+def _class_constants(c):
+    out = {}
+    for st in c.body:
+        if isinstance(st, ast.Assign) and len(st.targets) == 1 and isinstance(st.targets[0], ast.Name) and isinstance(st.value, ast.Dict) and st.value.keys and all(
+                isinstance(x, ast.Constant) and isinstance(x.value, str) for x in list(st.value.keys) + list(st.value.values)):
+            out[st.targets[0].id] = st.value
+    return out
+
+
+def _expand_table_branches(loop, tables):
+    """inside the loop over the conf keys: `if k in T: body(T[k])` with T a constant dict (class or module level)
+    -> one branch `if k == "<key>": body("<value>")` per entry (the keys are distinct, so this is the same program)"""
+    import copy
+
+    k = loop.target.id
+
+    def table_of(n):
+        nm = _self_attr_name(n) or (n.id if isinstance(n, ast.Name) else None)
+        return nm if nm in tables else None
+
+    out = []
+    for st in loop.body:
+        if (isinstance(st, ast.If) and not st.orelse and isinstance(st.test, ast.Compare) and len(st.test.ops) == 1 and isinstance(st.test.ops[0], ast.In)
+                and isinstance(st.test.left, ast.Name) and st.test.left.id == k and table_of(st.test.comparators[0])):
+            tname = table_of(st.test.comparators[0])
+            t = tables[tname]
+            for key, val in zip(t.keys, t.values):
+                class _S(ast.NodeTransformer):
+                    def visit_Subscript(self, node):
+                        self.generic_visit(node)
+                        if table_of(node.value) == tname and isinstance(node.slice, ast.Name) and node.slice.id == k:
+                            return ast.copy_location(ast.Constant(value=val.value), node)
+                        return node
+                body = [_S().visit(copy.deepcopy(b)) for b in st.body]
+                if any(table_of(n) == tname for b in body for n in ast.walk(b)):
+                    raise TranslateError("table %s is used other than as %s[%s] in its branch" % (tname, tname, k))
+                new = ast.If(test=ast.Compare(left=ast.Name(id=k, ctx=ast.Load()), ops=[ast.Eq()], comparators=[ast.Constant(value=key.value)]), body=body, orelse=[])
+                out.append(ast.fix_missing_locations(ast.copy_location(new, st)))
+        else:
+            out.append(st)
+    loop.body = out
+
+
+def _subst_leading_locals(body):
+    """`x = <expr>` at the head of a branch body, x not assigned again: substitute it into the rest"""
+    import copy
+
+    while body and isinstance(body[0], ast.Assign) and len(body[0].targets) == 1 and isinstance(body[0].targets[0], ast.Name) and len(body) > 1:
+        nm, val = body[0].targets[0].id, body[0].value
+        rest = body[1:]
+        if any(isinstance(n, (ast.Assign, ast.AugAssign, ast.For)) and any(isinstance(t, ast.Name) and t.id == nm for t in ast.walk(n) if isinstance(t, ast.Name) and isinstance(t.ctx, ast.Store)) for b in rest for n in ast.walk(b)):
+            break
+        if not isinstance(val, (ast.Call, ast.Subscript, ast.Attribute, ast.Name, ast.Constant)) or sum(1 for b in rest for n in ast.walk(b) if isinstance(n, ast.Name) and n.id == nm) == 0:
+            break
+        # only for the `.lower()` of the conf value (a pure expression evaluated once): keep other locals as they are
+        if not (isinstance(val, ast.Call) and isinstance(val.func, ast.Attribute) and val.func.attr in ("lower", "strip", "upper") and not val.args):
+            break
+        body = [_RenameNames({nm: val}).visit(copy.deepcopy(b)) for b in rest]
+    return body
+
+
+def normalise(tree):
+    """-> (tree rewritten to the canonical spelling, discovered private names)"""
+    import copy
+
+    tree = copy.deepcopy(tree)
+    consts = _module_constants(tree)
+    consts_tables = {k: v for k, v in consts.items() if isinstance(v, ast.Dict) and v.keys and all(isinstance(x.value, str) for x in list(v.keys) + list(v.values))}
+    cls = {n.name: n for n in tree.body if isinstance(n, ast.ClassDef)}
+    for c in ("Settings", "ConfParser", "PhonopySettings", "PhonopyConfParser"):
+        if c not in cls:
+            raise TranslateError("class %s not found" % c)
+    found = {}
+    # ---- private attributes through public names
+    cm = _methods(cls["ConfParser"])
+    init = cm.get("__init__")
+    if init is None:
+        raise TranslateError("ConfParser.__init__ not found")
+    for st in ast.walk(init):
+        if isinstance(st, ast.Assign) and len(st.targets) == 1 and _self_attr_name(st.targets[0]) and isinstance(st.value, ast.Name) and st.value.id == "args":
+            found["_args"] = _self_attr_name(st.targets[0])
+    for prop, canon in (("confs", "_confs"), ("settings", "_settings")):
+        f = cm.get(prop)
+        if f is not None:
+            for st in ast.walk(f):
+                if isinstance(st, ast.Return) and _self_attr_name(st.value):
+                    found[canon] = _self_attr_name(st.value)
+    f = cm.get("set_parameter")
+    if f is not None:
+        for st in ast.walk(f):
+            if isinstance(st, ast.Assign) and isinstance(st.targets[0], ast.Subscript) and _self_attr_name(st.targets[0].value):
+                found["_parameters"] = _self_attr_name(st.targets[0].value)
+    f = _methods(cls["Settings"]).get("__getattr__")
+    if f is not None:
+        for st in ast.walk(f):
+            if isinstance(st, ast.Return) and isinstance(st.value, ast.Subscript) and _self_attr_name(st.value.value):
+                found["_v"] = _self_attr_name(st.value.value)
+    missing = [a for a in CANON_ATTR if a not in found]
+    if missing:
+        raise TranslateError("cannot find the attributes behind %s through the public properties / set_parameter / __getattr__" % missing)
+    ren = {v: k for k, v in found.items() if v != k}
+    if len(set(found.values())) != len(found):
+        raise TranslateError("two roles share one private attribute: %s" % found)
+    if ren:
+        _RenameSelfAttr(ren).visit(tree)
+    _SubstConstants(consts).visit(tree)
+    _SimplifyNot().visit(tree)
+    for c in cls.values():
+        for m in c.body:
+            if isinstance(m, ast.FunctionDef):
+                m.body = _early_returns(m.body)
+                if len(m.body) > 1 and isinstance(m.body[-1], ast.Return) and m.body[-1].value is None:
+                    m.body.pop()
+
+    # ---- inline private helper methods called as statements with plain-name arguments
+    def inline(c, fn, depth=0):
+        methods = {}
+        for base in ([cls["ConfParser"]] if c is cls["PhonopyConfParser"] else []) + [c]:
+            methods.update(_methods(base))
+
+        def expand(body):
+            out = []
+            for st in body:
+                for fld in ("body", "orelse"):
+                    if isinstance(st, (ast.If, ast.For)) and getattr(st, fld, None):
+                        setattr(st, fld, expand(getattr(st, fld)))
+                if (isinstance(st, ast.Expr) and isinstance(st.value, ast.Call) and _self_attr_name(st.value.func) and _self_attr_name(st.value.func).startswith("_")
+                        and _self_attr_name(st.value.func) in methods and not st.value.keywords and depth < 4
+                        and all(isinstance(a, ast.Name) or (isinstance(a, ast.Constant) and isinstance(a.value, (str, bool, int))) for a in st.value.args)):
+                    h = methods[_self_attr_name(st.value.func)]
+                    params = [a.arg for a in h.args.args[1:]]
+                    if len(params) == len(st.value.args) and not any(isinstance(n, ast.Return) and n.value is not None for n in ast.walk(h)):
+                        hb = copy.deepcopy([b for b in h.body if not _is_docstring(b)])
+                        mp = {p: (a.id if isinstance(a, ast.Name) else a) for p, a in zip(params, st.value.args) if not (isinstance(a, ast.Name) and p == a.id)}
+                        assigned = {t.id for n in ast.walk(h) if isinstance(n, ast.Assign) for t in n.targets if isinstance(t, ast.Name)}
+                        if any(not isinstance(v, str) and p in assigned for p, v in mp.items()):
+                            out.append(st)  # a parameter bound to a constant is reassigned in the helper: not inlined
+                            continue
+                        hb = [_RenameNames(mp).visit(b) for b in hb] if mp else hb
+                        sub = ast.FunctionDef(name=h.name, args=h.args, body=hb, decorator_list=[], lineno=h.lineno, col_offset=0)
+                        inline(c, sub, depth + 1)
+                        out += sub.body
+                        continue
+                out.append(st)
+            return out
+        fn.body = expand(fn.body)
+
+    # ---- roles of the subclass methods
+    pm = _methods(cls["PhonopyConfParser"])
+    roles = {}
+    for name, fn in pm.items():
+        if name == "__init__":
+            continue
+        txt = ast.unparse(fn)
+        if "vars(self._args)" in txt and _calls_base(fn, "read_options"):
+            roles.setdefault("_read_options", name)
+        elif _calls_base(fn, "parse_conf") and any(_is_keys_loop(st, _alias_names(fn, "_confs")) for st in ast.walk(fn)):
+            roles.setdefault("_parse_conf", name)
+        elif _calls_base(fn, "set_settings") and "self._settings.set_" in txt:
+            roles.setdefault("_set_settings", name)
+    for r in ("_read_options", "_parse_conf", "_set_settings"):
+        if r not in roles:
+            raise TranslateError("no method of PhonopyConfParser plays the role of %s (calls the public base method and does its work)" % r)
+    found.update({"method" + k: v for k, v in roles.items()})
+    mren = {v: k for k, v in roles.items() if v != k}
+    if mren:
+        for n in ast.walk(tree):
+            if isinstance(n, ast.FunctionDef) and n.name in mren and n in cls["PhonopyConfParser"].body:
+                n.name = mren[n.name]
+            if isinstance(n, ast.Attribute) and isinstance(n.value, ast.Name) and n.value.id == "self" and n.attr in mren:
+                n.attr = mren[n.attr]
+    # ---- per role: inline helpers, canonical base-class call, canonical locals
+    for cname, names in (("ConfParser", ("read_options", "parse_conf", "set_settings")), ("PhonopyConfParser", ("_read_options", "_parse_conf", "_set_settings"))):
+        ms = _methods(cls[cname])
+        for nm in names:
+            fn = ms.get(nm)
+            if fn is None:
+                raise TranslateError("%s.%s not found" % (cname, nm))
+            if nm.endswith("parse_conf"):
+                tables = dict(consts_tables)
+                tables.update(_class_constants(cls["ConfParser"]))
+                tables.update(_class_constants(cls[cname]))
+                for st in ast.walk(fn):
+                    if _is_keys_loop(st, _alias_names(fn, "_confs")) or (isinstance(st, ast.For) and isinstance(st.target, ast.Name) and any(
+                            isinstance(b, ast.If) and isinstance(b.test, ast.Compare) and isinstance(b.test.left, ast.Name) and b.test.left.id == st.target.id for b in st.body)):
+                        _expand_table_branches(st, tables)
+            inline(cls[cname], fn)
+            if nm.endswith("parse_conf"):
+                for st in ast.walk(fn):
+                    if isinstance(st, ast.For):
+                        for b in st.body:
+                            if isinstance(b, ast.If):
+                                b.body = _subst_leading_locals(b.body)
+            for n in ast.walk(fn):  # super().x() / self.x() of the public base method -> the canonical call text
+                if isinstance(n, ast.Expr) and isinstance(n.value, ast.Call) and isinstance(n.value.func, ast.Attribute) and n.value.func.attr in ("read_options", "parse_conf", "set_settings") and cname == "PhonopyConfParser":
+                    pub = n.value.func.attr
+                    n.value = ast.parse("self.set_settings()" if pub == "set_settings" else "ConfParser.%s(self)" % pub).body[0].value
+            mp = {}
+            for st in ast.walk(fn):
+                if isinstance(st, ast.Assign) and len(st.targets) == 1 and isinstance(st.targets[0], ast.Name):
+                    src = ast.unparse(st.value)
+                    if src == "vars(self._args)":
+                        mp[st.targets[0].id] = "arg_list"
+                    elif src == "self._confs":
+                        mp[st.targets[0].id] = "confs"
+                    elif src == "self._parameters":
+                        mp[st.targets[0].id] = "params"
+            if nm.endswith("parse_conf"):
+                for st in ast.walk(fn):
+                    if _is_keys_loop(st, set(mp) | {"confs"}):
+                        mp[st.target.id] = "conf_key"
+                        it = st.iter
+                        if not (isinstance(it, ast.Call)):
+                            st.iter = ast.Call(func=ast.Attribute(value=it, attr="keys", ctx=ast.Load()), args=[], keywords=[])
+            mp = {k: v for k, v in mp.items() if k != v}
+            if mp:
+                _RenameNames(mp).visit(fn)
+            if nm.endswith("parse_conf"):
+                # direct uses of self._confs inside the parse method -> the alias `confs`
+                has_alias = any(ast.unparse(st) == "confs = self._confs" for st in fn.body)
+
+                class _A(ast.NodeTransformer):
+                    def visit_Attribute(self, node):
+                        if _self_attr_name(node) == "_confs" and isinstance(node.ctx, ast.Load):
+                            return ast.copy_location(ast.Name(id="confs", ctx=ast.Load()), node)
+                        return self.generic_visit(node)
+                for i, st in enumerate(fn.body):
+                    if ast.unparse(st) != "confs = self._confs":
+                        fn.body[i] = _A().visit(st)
+                if not has_alias:
+                    fn.body.insert(1 if fn.body and _is_docstring(fn.body[0]) else 0, ast.parse("confs = self._confs").body[0])
+            if nm.endswith("set_settings"):
+                has_alias = any(ast.unparse(st) == "params = self._parameters" for st in fn.body)
+
+                class _B(ast.NodeTransformer):
+                    def visit_Attribute(self, node):
+                        if _self_attr_name(node) == "_parameters" and isinstance(node.ctx, ast.Load):
+                            return ast.copy_location(ast.Name(id="params", ctx=ast.Load()), node)
+                        return self.generic_visit(node)
+                for i, st in enumerate(fn.body):
+                    if ast.unparse(st) != "params = self._parameters":
+                        fn.body[i] = _B().visit(st)
+                if not has_alias:
+                    fn.body.insert(1 if fn.body and _is_docstring(fn.body[0]) else 0, ast.parse("params = self._parameters").body[0])
+            if nm.endswith("read_options"):
+                if not any(ast.unparse(st) == "arg_list = vars(self._args)" for st in fn.body):
+                    class _C(ast.NodeTransformer):
+                        def visit_Call(self, node):
+                            if ast.unparse(node) == "vars(self._args)":
+                                return ast.copy_location(ast.Name(id="arg_list", ctx=ast.Load()), node)
+                            return self.generic_visit(node)
+                    fn.body = [_C().visit(st) for st in fn.body]
+                    fn.body.insert(1 if fn.body and _is_docstring(fn.body[0]) else 0, ast.parse("arg_list = vars(self._args)").body[0])
+    ast.fix_missing_locations(tree)
+    return tree, found
+
+
+def _alias_names(fn, attr):
+    out = {"confs"}
+    for st in ast.walk(fn):
+        if isinstance(st, ast.Assign) and len(st.targets) == 1 and isinstance(st.targets[0], ast.Name) and _self_attr_name(st.value) == attr:
+            out.add(st.targets[0].id)
+    return out
+
+
+# --------------------------------------------------------------------------
 # assemble
 # --------------------------------------------------------------------------
 
 def build_table(repo="/repo"):
     src = open(os.path.join(repo, "phonopy", "cui", "settings.py")).read()
-    tree = ast.parse(src)
+    tree, private_names = normalise(ast.parse(src))
     classes = {}
     cls_nodes = {}
     for n in tree.body:
@@ -801,6 +1214,19 @@ def build_table(repo="/repo"):
 
     opt_rules = _read_options(classes["PhonopyConfParser"]["_read_options"], classes, strs)
     parse_rules = _parse_conf(classes["ConfParser"]["parse_conf"], classes, 0, strs) + _parse_conf(classes["PhonopyConfParser"]["_parse_conf"], classes, 1, strs)
+
+    # canonical form: distinct `conf_key == …` tests are mutually exclusive, so a branch over several keys is the same
+    # as one branch per key, and the order of the branches of one loop does not matter
+    split = []
+    for r in parse_rules:
+        for k in r["keys"]:
+            split.append(dict(r, keys=[k]))
+    seen_keys = set()
+    for r in split:
+        if (r["phase"], r["keys"][0]) in seen_keys:
+            raise TranslateError("conf key %s is handled by two branches of one loop" % r["keys"][0])
+        seen_keys.add((r["phase"], r["keys"][0]))
+    parse_rules = sorted(split, key=lambda r: (r["phase"], r["keys"][0]))
 
     pb = _Prog(setters, strs, fns)
     base = pb.stmts(classes["ConfParser"]["set_settings"].body)
@@ -893,7 +1319,7 @@ def build_table(repo="/repo"):
     return {"tags": tags, "code_tags": code_tags, "keys": keys, "attrs": attrs, "dests": dests, "strs": strs, "fns": fns, "flags": flags,
             "defaults": defaults, "setters": setters, "parse_rules": parse_rules, "opt_rules": opt_rules, "prog": prog,
             "argparse": argrows, "calculators": calcs, "doc_tags": doc_tags, "doc_pairs": doc_pairs, "doc_flags": doc_flags,
-            "heading_flags": heading_flags, "doc_pair_values": doc_pair_values}
+            "heading_flags": heading_flags, "doc_pair_values": doc_pair_values, "private_names": private_names}
 
 
 # --------------------------------------------------------------------------
